@@ -61,6 +61,17 @@ CHECKS = {
             "LDL', solves, sparse inverse, block-diagonal Cholesky and homogenisation, compared entrywise with dense "
             "references; exploration.",
             "DESIGN.md §2 C16", TRUST),
+    "C08": ("relational monitor: one noisy free network adjusted with several admissible constraint sets (admissibility "
+            "decided by the numpy null space of the recorded system) x 4 algorithms; invariants compared; per run the "
+            "minimum-norm / orthogonality condition checked on the recorded linear system (trace hook)",
+            "Sampled free networks (defect 1..4) x sampled constraint subsets x algorithms; exploration.",
+            "DESIGN.md §2 C08", TRUST),
+    "C15": ("reference-model and history monitors inside a sanitized driver: exhaustive tiny integer matrices, random "
+            "well-conditioned operands vs long-double naive algebra, object-lifecycle histories vs a shadow model, "
+            "non-conforming operands, LeakSanitizer scenarios",
+            "Exhaustive over tiny dimensions/entries, random beyond; every operator that compiles in matvec; "
+            "exploration (exhaustive on the finite sub-space).",
+            "DESIGN.md §2 C15", TRUST),
 }
 
 NOT_APPLICABLE = {}
